@@ -201,6 +201,18 @@ def _call(packed):
     return ('crash', '%s\n%s' % (arg if len(repr(arg)) < 400 else repr(arg)[:400], traceback.format_exc()))
 
 
+def _pin():
+  """Pin a worker to one CPU: the baton hand-off between the controlled threads of thrx is ~6x
+  cheaper when both threads share a CPU (cross-CPU wake-ups are slow in this VM)."""
+  try:
+    cpus = sorted(os.sched_getaffinity(0))
+    ident = multiprocessing.current_process()._identity
+    k = (ident[0] - 1) if ident else 0
+    os.sched_setaffinity(0, {cpus[k % len(cpus)]})
+  except (AttributeError, OSError, IndexError):
+    pass
+
+
 def pmap(fn, args, fresh=False, procs=None, chunksize=1):
   """Run fn over args in forked worker processes (fresh=True: one process per task, for
   configuration that carbon freezes at import time).  Results in input order.  A crash in a worker
@@ -213,7 +225,7 @@ def pmap(fn, args, fresh=False, procs=None, chunksize=1):
     out = [_call((fn, a)) for a in args]
   else:
     ctx = multiprocessing.get_context('fork')
-    with ctx.Pool(procs, maxtasksperchild=1 if fresh else None) as pool:
+    with ctx.Pool(procs, initializer=_pin, maxtasksperchild=1 if fresh else None) as pool:
       out = pool.map(_call, [(fn, a) for a in args], chunksize=1 if fresh else chunksize)
   res = []
   for kind, val in out:
